@@ -45,8 +45,18 @@ func c15Operand(k int, s string) (v interface{}, isErr bool, inner error) {
 		return pubStruct{s, 1}, false, nil
 	case 9:
 		return []error{valErr{s}}, false, nil
+	case 10:
+		// not an error; its SafeFormat prints with a %w of its own, which is
+		// a misuse inside the nested call and must not reach the outer capture
+		return sfInnerW{s}, false, nil
 	}
 	panic("c15Operand")
+}
+
+type sfInnerW struct{ s string }
+
+func (x sfInnerW) SafeFormat(w redact.SafePrinter, verb rune) {
+	w.Printf("op(%w)", valErr{x.s})
 }
 
 // H_c15: HelperForErrorf against its reference semantics and fmt.Errorf.
@@ -134,7 +144,7 @@ func H_c15(p []int) {
 	// at most one %w: agree with fmt.Errorf (operands without redact wrappers)
 	plain := true
 	for _, k := range opk {
-		if k == 5 || k == 6 {
+		if k == 5 || k == 6 || k == 10 {
 			plain = false
 		}
 	}
